@@ -270,6 +270,10 @@ func (w *World) Insert(t *Tree, ki, vn int) error {
 	if err != nil {
 		return fmt.Errorf("Insert(%v,%v) failed: %w", w.Pool[ki], w.Cfg.MakeVal(vn), err)
 	}
+	if old, ok := t.Model[ki]; ok && old != vn && w.Cfg.SameVal(old, vn) {
+		// the same value as far as Insert is concerned (e.g. -0 over +0): a no-op, the tree keeps what it holds
+		vn = old
+	}
 	if old, ok := t.Model[ki]; !ok || old != vn {
 		t.touch(ki)
 	}
